@@ -214,7 +214,7 @@ def main(ck):
         asrcs = {}
         for i in range(0, len(mis_funcs), per):
             asrcs['c21abl%d' % (i // per)] = mis_funcs[i:i + per]
-        da, ia = build(tree, {an: flowgen.module_source([fmap[x][1] for x in names]) for an, anames in asrcs.items()}, 'abl',
+        da, ia = build(tree, {an: flowgen.module_source([fmap[x][1] for x in anames]) for an, anames in asrcs.items()}, 'abl',
                        directives={'infer_types': False}, global_options={'error_on_uninitialized': False})
         for an, anames in asrcs.items():
             if not ia[an]['ok']:
